@@ -381,6 +381,11 @@ func RunWorld(spec WorldSpec, rep *hx.Report) (res WorldResult) {
 		}
 		emit(fmt.Sprintf("alloc %d %s", r.ipnum, Enc(r.key)), "ok")
 		rep.Hit("world.rec." + rs.Shape)
+		if k, has := rs.Pod.Kind(); has {
+			rep.Hit("world.kind." + KindClass(k))
+		} else {
+			rep.Hit("world.kind.none")
+		}
 		if r.feature() != "" {
 			rep.Hit("world.rec." + r.feature())
 		}
